@@ -1,9 +1,121 @@
 import Driver.Util
-open Lean
+import NixModel.Pure.Stamps
+open Lean Nix Nix.Time Nix.Stamps Nix.Stamps.Gen
 
 namespace Driver.C19
 
-/-- stub: replaced when the model of C19 is built -/
-def main : IO Unit := pureLoop fun _ => bad "C19: model driver not built yet"
+def kindOf : String → Option Kind
+  | "file" => some .file | "block" => some .block | "group" => some .group
+  | "data_array" => some .dataArray | "data_frame" => some .dataFrame | "tag" => some .tag
+  | "multi_tag" => some .multiTag | "source" => some .source | "section" => some .section
+  | "property" => some .property | "feature" => some .feature
+  | _ => none
+
+def inputOf : String → Option Input
+  | "good" => some .good | "early" => some .refusedEarly | "late" => some .refusedLate
+  | _ => none
+
+def timeArgOf (j : Json) : TimeArg :=
+  match j with
+  | .null => .now
+  | .num _ => match jInt? j with
+    | some t => .at t
+    | none => .badType
+  | _ => .badType
+
+def readJ : Except Err (Option Int) → Json
+  | .ok none => Json.null
+  | .ok (some t) => toJson t
+  | .error e => Json.str ("ERR:" ++ e.toString)
+
+def stampsJ (s : State) : Json :=
+  Json.arr <| (s.ents.zipIdx.filterMap fun (e, i) =>
+    if e.alive then
+      some (Json.arr #[toJson i, readJ (readStamp e.created), readJ (readStamp e.updated)])
+    else none).toArray
+
+def resJ : Res → String
+  | .done => "done" | .refused => "refused" | .err e => "err:" ++ e.toString | .bad => "bad"
+
+def outJ (s : State) (r : Res) : Json :=
+  match r with
+  | .bad => bad "C19: operation not applicable to the model state"
+  | r => ok (Json.mkObj [("res", Json.str (resJ r)), ("auto", Json.bool s.auto), ("stamps", stampsJ s)])
+
+/-- a trailing JSON object (the concrete arguments used on the implementation side) is ignored -/
+def opList (j : Json) : List Json :=
+  let l := (jArr j).toList
+  match l.getLast? with
+  | some (.obj _) => l.dropLast
+  | _ => l
+
+def parseOp (j : Json) : Option Op :=
+  match opList j with
+  | [Json.str "create", Json.str k, p, Json.str inp] => do
+    let k ← kindOf k; let p ← jInt? p; let inp ← inputOf inp
+    if p < 0 then none else some (.create k p.toNat inp)
+  | [Json.str "call", e, via, Json.str m, Json.str inp] => do
+    let e ← jInt? e; let m ← Mem.ofString m; let inp ← inputOf inp
+    if e < 0 then none else
+    match via with
+    | .null => some (.call e.toNat none m inp)
+    | .str c => do let c ← Cls.ofString c; some (.call e.toNat (some c) m inp)
+    | _ => none
+  | [Json.str "force_created", e, t] => do
+    let e ← jInt? e
+    if e < 0 then none else some (.forceCreated e.toNat (timeArgOf t))
+  | [Json.str "force_updated", e, t] => do
+    let e ← jInt? e
+    if e < 0 then none else some (.forceUpdated e.toNat (timeArgOf t))
+  | [Json.str "set_auto", Json.bool b] => some (.setAuto b)
+  | [Json.str "set_clock", t] => do let t ← jInt? t; some (.setClock t)
+  | [Json.str "delete", e] => do
+    let e ← jInt? e
+    if e < 0 then none else some (.delete e.toNat)
+  | [Json.str "reopen", Json.bool b] => some (.reopen b)
+  | _ => none
+
+def touchJ : Touch → String | .none => "none" | .self => "self" | .parent => "parent"
+def mkindJ : MKind → String
+  | .setter => "setter" | .method => "method" | .forceCreated => "forceCreated"
+  | .forceUpdated => "forceUpdated"
+
+def handle (st : Option State) (j : Json) : Option State × Json :=
+  match (jArr j).toList with
+  | [Json.str "time_to_str", t] =>
+    match jInt? t with
+    | some t => match timeToStr t with
+      | .ok v => (st, ok (Json.str (String.ofList v)))
+      | .error e => (st, err e)
+    | none => (st, bad "C19: time_to_str needs an integer")
+  | [Json.str "str_to_time", Json.str v] =>
+    let l := v.toList
+    let r := match strToTime l with
+      | .ok t => ("ok", toJson t)
+      | .error e => ("err", Json.str e.toString)
+    (st, Json.mkObj [r, ("canonical", Json.bool (canonicalShape l))])
+  | [Json.str "resolve", Json.str c, Json.str m] =>
+    match Cls.ofString c, Mem.ofString m with
+    | some c, some m =>
+      match resolve c m with
+      | some mb => (st, ok (Json.mkObj [("kind", Json.str (mkindJ mb.kind)), ("touch", Json.str (touchJ mb.touch)),
+                                        ("last", Json.bool mb.last)]))
+      | none => (st, ok Json.null)
+    | _, _ => (st, ok Json.null)
+  | [Json.str "open", clock, Json.bool auto] =>
+    match jInt? clock with
+    | some c => match State.open c auto with
+      | .ok s => (some s, outJ s .done)
+      | .error e => (none, err e)
+    | none => (st, bad "C19: open needs an integer clock")
+  | _ =>
+    match st, parseOp j with
+    | some s, some op =>
+      let (s', r) := step s op
+      (some s', outJ s' r)
+    | none, some _ => (st, bad "C19: no open file")
+    | _, none => (st, bad "C19: unknown op")
+
+def main : IO Unit := loop (none : Option State) handle
 
 end Driver.C19
